@@ -3,5 +3,296 @@ From Coq Require Import NArith ZArith List Bool Arith Lia.
 Require Import CCP.Lib.PyStr CCP.Model.Diff.
 Import ListNotations.
 
-Lemma rollback_is_mirror old new : get_rollback old new = get_diff new old.
+(* ------------------------------------------------------------------ basic facts *)
+Lemma str_eqb_neq a b : str_eqb a b = false <-> a <> b.
+Proof.
+  split.
+  - intros H E. apply str_eqb_eq in E. congruence.
+  - intros H. destruct (str_eqb a b) eqn:E; [|reflexivity]. apply str_eqb_eq in E. contradiction.
+Qed.
+Lemma str_eqb_sym a b : str_eqb a b = str_eqb b a.
+Proof.
+  destruct (str_eqb a b) eqn:E1, (str_eqb b a) eqn:E2; try reflexivity.
+  - apply str_eqb_eq in E1. subst. rewrite str_eqb_refl in E2. discriminate.
+  - apply str_eqb_eq in E2. subst. rewrite str_eqb_refl in E1. discriminate.
+Qed.
+
+Lemma path_eqb_eq a b : path_eqb a b = true <-> a = b.
+Proof.
+  revert b; induction a as [|x r IH]; intros [|y s]; simpl; split; intros H; try discriminate; auto.
+  - apply andb_true_iff in H. destruct H as [H1 H2]. apply str_eqb_eq in H1. apply IH in H2. subst. reflexivity.
+  - inversion H; subst. rewrite str_eqb_refl. simpl. apply IH. reflexivity.
+Qed.
+Lemma path_eqb_refl a : path_eqb a a = true.
+Proof. apply path_eqb_eq. reflexivity. Qed.
+
+Lemma mem_path_In p s : mem_path p s = true <-> In p s.
+Proof.
+  unfold mem_path. rewrite existsb_exists. split.
+  - intros [q [Hq E]]. apply path_eqb_eq in E. subst. exact Hq.
+  - intros H. exists p. split; [exact H|apply path_eqb_refl].
+Qed.
+
+Lemma has_text_In t f : has_text t f = true <-> exists n, In n f /\ ttext n = t.
+Proof.
+  unfold has_text. rewrite existsb_exists. split.
+  - intros [n [Hn E]]. apply str_eqb_eq in E. eauto.
+  - intros [n [Hn E]]. exists n. split; [exact Hn|]. apply str_eqb_eq. exact E.
+Qed.
+Lemma has_text_cons t n f : has_text t (n :: f) = str_eqb (ttext n) t || has_text t f.
 Proof. reflexivity. Qed.
+Lemma has_text_app t f g : has_text t (f ++ g) = has_text t f || has_text t g.
+Proof. unfold has_text. apply existsb_app. Qed.
+
+Lemma find_child_some t f n : find_child t f = Some n -> In n f /\ ttext n = t.
+Proof.
+  induction f as [|m r IH]; simpl; [discriminate|].
+  destruct (str_eqb (ttext m) t) eqn:E.
+  - intros H. inversion H; subst. split; [left; reflexivity|]. apply str_eqb_eq. exact E.
+  - intros H. destruct (IH H) as [H1 H2]. split; [right; exact H1|exact H2].
+Qed.
+Lemma find_child_none t f : find_child t f = None <-> has_text t f = false.
+Proof.
+  induction f as [|m r IH]; [simpl; tauto|].
+  rewrite has_text_cons. cbn [find_child]. destruct (str_eqb (ttext m) t); simpl; [split; discriminate|exact IH].
+Qed.
+Lemma find_child_has t f : has_text t f = true -> exists n, find_child t f = Some n.
+Proof.
+  intros H. destruct (find_child t f) eqn:E; [eauto|]. apply find_child_none in E. congruence.
+Qed.
+
+(* ------------------------------------------------------------------ well-formedness predicates *)
+(* sibling texts are pairwise different, at every level (what the loader guarantees) *)
+Inductive uniq : forest -> Prop :=
+| U_nil : uniq []
+| U_cons t k f : has_text t f = false -> uniq k -> uniq f -> uniq (Node t k :: f).
+(* every text of the forest satisfies P *)
+Inductive allt (P : str -> Prop) : forest -> Prop :=
+| A_nil : allt P []
+| A_cons t k f : P t -> allt P k -> allt P f -> allt P (Node t k :: f).
+
+Definition nonneg (t : str) : Prop := is_neg t = false.
+Definition nolead (t : str) : Prop := match t with c :: _ => is_sp c = false | [] => True end.
+
+Lemma uniq_find t f n : uniq f -> find_child t f = Some n -> uniq (tkids n).
+Proof.
+  intros U. induction U as [|t0 k f Hn Uk _ Uf IH]; simpl; [discriminate|].
+  destruct (str_eqb t0 t); intros H; [inversion H; subst; exact Uk|apply IH; exact H].
+Qed.
+Lemma allt_find P t f n : allt P f -> find_child t f = Some n -> allt P (tkids n) /\ P (ttext n).
+Proof.
+  intros U. induction U as [|t0 k f Hp Ak _ Af IH]; simpl; [discriminate|].
+  destruct (str_eqb t0 t); intros H; [inversion H; subst; simpl; split; assumption|apply IH; exact H].
+Qed.
+Lemma allt_In P f n : allt P f -> In n f -> P (ttext n) /\ allt P (tkids n).
+Proof.
+  intros A. induction A as [|t k f Hp Ak _ Af IH]; simpl; [tauto|].
+  intros [E|H]; [subst; simpl; split; assumption|apply IH; exact H].
+Qed.
+Lemma allt_app P f g : allt P f -> allt P g -> allt P (f ++ g).
+Proof. intros A B. induction A; simpl; [exact B|constructor; assumption]. Qed.
+Lemma allt_app_inv P f g : allt P (f ++ g) -> allt P f /\ allt P g.
+Proof.
+  induction f as [|n f IH]; simpl; intros H; [split; [constructor|exact H]|].
+  inversion H; subst. destruct (IH H4) as [A B]. split; [constructor; assumption|exact B].
+Qed.
+Lemma uniq_find_unique f n t : uniq f -> In n f -> ttext n = t -> find_child t f = Some n.
+Proof.
+  intros U. induction U as [|t0 k f Hn Uk _ Uf IH]; simpl; [tauto|].
+  intros [E|H] Et.
+  - subst n. simpl in Et. subst t0. rewrite str_eqb_refl. reflexivity.
+  - destruct (str_eqb t0 t) eqn:E.
+    + apply str_eqb_eq in E. subst t0. exfalso.
+      assert (has_text t f = true) by (apply has_text_In; eauto). congruence.
+    + apply IH; assumption.
+Qed.
+
+(* ------------------------------------------------------------------ a tree induction principle *)
+Fixpoint tree_ind2 (P : tree -> Prop)
+  (H : forall t k, Forall P k -> P (Node t k)) (n : tree) {struct n} : P n :=
+  match n with
+  | Node t k => H t k ((fix go (l : forest) : Forall P l :=
+                          match l with
+                          | [] => Forall_nil P
+                          | x :: r => Forall_cons x (tree_ind2 P H x) (go r)
+                          end) k)
+  end.
+Lemma forest_ind2 (Q : forest -> Prop) :
+  Q [] -> (forall t k f, Q k -> Q f -> Q (Node t k :: f)) -> forall f, Q f.
+Proof.
+  intros H0 Hs.
+  assert (HT : forall n f, Q f -> Q (n :: f)).
+  { intros n. induction n as [t k Hk] using tree_ind2. intros f Qf. apply Hs; [|exact Qf].
+    induction Hk as [|x r Hx _ IH]; [exact H0|]. apply Hx. exact IH. }
+  induction f as [|n f IH]; [exact H0|]. apply HT. exact IH.
+Qed.
+
+(* ------------------------------------------------------------------ paths and membership *)
+Lemma paths_node_eq t k : paths_node (Node t k) = [t] :: map (cons t) (paths k).
+Proof. reflexivity. Qed.
+Lemma paths_cons n f : paths (n :: f) = paths_node n ++ paths f.
+Proof. reflexivity. Qed.
+Lemma paths_app f g : paths (f ++ g) = paths f ++ paths g.
+Proof. unfold paths. apply flat_map_app. Qed.
+
+Lemma in_paths p f :
+  In p (paths f) <-> exists n, In n f /\ (p = [ttext n] \/ exists q, p = ttext n :: q /\ In q (paths (tkids n))).
+Proof.
+  unfold paths at 1. rewrite in_flat_map. split.
+  - intros [n [Hn Hp]]. exists n. split; [exact Hn|]. destruct n as [t k]. rewrite paths_node_eq in Hp.
+    destruct Hp as [E|Hp]; [left; subst; reflexivity|]. right. apply in_map_iff in Hp.
+    destruct Hp as [q [E Hq]]. exists q. subst. split; [reflexivity|exact Hq].
+  - intros [n [Hn Hp]]. exists n. split; [exact Hn|]. destruct n as [t k]. rewrite paths_node_eq. simpl in Hp.
+    destruct Hp as [E|[q [E Hq]]]; [left; subst; reflexivity|]. right. subst. apply in_map. exact Hq.
+Qed.
+Lemma paths_nonempty p f : In p (paths f) -> p <> [].
+Proof. intros H. apply in_paths in H. destruct H as [n [_ [E|[q [E _]]]]]; subst; discriminate. Qed.
+
+(* membership of a path, by recursion on the path *)
+Fixpoint memt (f : forest) (p : path) : bool :=
+  match p with
+  | [] => false
+  | x :: r => match r with
+              | [] => has_text x f
+              | _ => match find_child x f with Some n => memt (tkids n) r | None => false end
+              end
+  end.
+
+Lemma paths_memt p : forall f, uniq f -> (In p (paths f) <-> memt f p = true).
+Proof.
+  induction p as [|x r IH]; intros f U.
+  - simpl. split; [intros H; apply paths_nonempty in H; congruence|discriminate].
+  - rewrite in_paths. destruct r as [|y r'].
+    + cbn [memt]. rewrite has_text_In. split.
+      * intros [n [Hn [E|[q [E Hq]]]]]; inversion E; subst; [eauto|]. apply paths_nonempty in Hq. congruence.
+      * intros [n [Hn E]]. exists n. split; [exact Hn|]. left. subst. reflexivity.
+    + cbn [memt]. split.
+      * intros [n [Hn [E|[q [E Hq]]]]]; inversion E; subst.
+        rewrite (uniq_find_unique f n (ttext n) U Hn eq_refl).
+        apply IH; [|exact Hq]. eapply uniq_find; [exact U|]. apply uniq_find_unique; auto.
+      * destruct (find_child x f) as [n|] eqn:E; [|discriminate]. intros H.
+        destruct (find_child_some _ _ _ E) as [Hn Et]. exists n. split; [exact Hn|]. right.
+        exists (y :: r'). subst x. split; [reflexivity|]. apply IH; [|exact H]. eapply uniq_find; eauto.
+Qed.
+
+(* ------------------------------------------------------------------ effect of a command list on one path *)
+Definition eff (c p : path) (b : bool) : bool :=
+  match removal_target c with
+  | Some tgt => b && negb (is_prefix tgt p)
+  | None => b || path_eqb c p
+  end.
+Definition sv (cmds : list path) (p : path) (v : bool) : bool := fold_left (fun b c => eff c p b) cmds v.
+
+Lemma sv_app a b p v : sv (a ++ b) p v = sv b p (sv a p v).
+Proof. unfold sv. apply fold_left_app. Qed.
+Lemma sv_nil p v : sv [] p v = v.
+Proof. reflexivity. Qed.
+Lemma sv_cons c a p v : sv (c :: a) p v = sv a p (eff c p v).
+Proof. reflexivity. Qed.
+
+Lemma apply_sv cmds : forall s p, In p (apply_cmds cmds s) <-> sv cmds p (mem_path p s) = true.
+Proof.
+  induction cmds as [|c r IH]; intros s p.
+  - change (In p s <-> mem_path p s = true). symmetry. apply mem_path_In.
+  - unfold apply_cmds. simpl fold_left. fold (apply_cmds r (apply1 s c)). rewrite IH, sv_cons.
+    assert (E : mem_path p (apply1 s c) = eff c p (mem_path p s)); [|rewrite E; tauto].
+    unfold apply1, eff. destruct (removal_target c) as [tgt|].
+    + apply eq_true_iff_eq. rewrite mem_path_In, filter_In, andb_true_iff, mem_path_In. tauto.
+    + apply eq_true_iff_eq. rewrite mem_path_In, in_app_iff, orb_true_iff, mem_path_In, path_eqb_eq.
+      simpl. intuition congruence.
+Qed.
+
+(* commands that are all additions *)
+Lemma sv_adds cmds p : (forall c, In c cmds -> removal_target c = None) ->
+  forall v, sv cmds p v = v || mem_path p cmds.
+Proof.
+  induction cmds as [|c r IH]; intros H v.
+  - rewrite sv_nil. simpl. rewrite orb_false_r. reflexivity.
+  - rewrite sv_cons, IH by (intros c' Hc'; apply H; right; exact Hc').
+    unfold eff. rewrite (H c (or_introl eq_refl)). simpl. rewrite orb_assoc. f_equal. f_equal.
+    destruct (path_eqb c p) eqn:E1, (path_eqb p c) eqn:E2; try reflexivity.
+    + apply path_eqb_eq in E1. subst. rewrite path_eqb_refl in E2. discriminate.
+    + apply path_eqb_eq in E2. subst. rewrite path_eqb_refl in E1. discriminate.
+Qed.
+
+(* ------------------------------------------------------------------ removal_target *)
+Lemma is_neg_prefix t : is_neg (neg_prefix ++ t) = true.
+Proof. reflexivity. Qed.
+Lemma swap_neg_nonneg t : nonneg t -> swap_neg t = neg_prefix ++ t.
+Proof. unfold nonneg, swap_neg. intros ->. reflexivity. Qed.
+
+Lemma rt_single l : removal_target [l] = if is_neg l then Some [skipn 3 l] else None.
+Proof. reflexivity. Qed.
+Lemma rt_cons x c : c <> [] -> removal_target (x :: c) = option_map (cons x) (removal_target c).
+Proof.
+  intros Hc. unfold removal_target. simpl rev.
+  destruct (rev c) as [|l pre] eqn:E.
+  - exfalso. apply Hc. rewrite <- (rev_involutive c), E. reflexivity.
+  - simpl. destruct (is_neg l); [|reflexivity]. simpl. rewrite rev_app_distr. reflexivity.
+Qed.
+Lemma rt_nonempty c tgt : removal_target c = Some tgt -> tgt <> [].
+Proof.
+  unfold removal_target. destruct (rev c) as [|l pre]; [discriminate|].
+  destruct (is_neg l); [|discriminate]. intros H. inversion H. destruct (rev pre); discriminate.
+Qed.
+Lemma rt_nonneg c : Forall nonneg c -> removal_target c = None.
+Proof.
+  intros H. unfold removal_target. destruct (rev c) as [|l pre] eqn:E; [reflexivity|].
+  assert (Hl : In l c) by (apply in_rev; rewrite E; left; reflexivity).
+  rewrite Forall_forall in H. rewrite (H l Hl). reflexivity.
+Qed.
+
+Lemma eff_strip x c rest b : c <> [] -> eff (x :: c) (x :: rest) b = eff c rest b.
+Proof.
+  intros Hc. unfold eff. rewrite (rt_cons x c Hc). destruct (removal_target c) as [tgt|]; simpl.
+  - rewrite str_eqb_refl. reflexivity.
+  - rewrite str_eqb_refl. reflexivity.
+Qed.
+Lemma eff_single x c b : c <> [] -> eff (x :: c) [x] b = b.
+Proof.
+  intros Hc. unfold eff. rewrite (rt_cons x c Hc). destruct (removal_target c) as [tgt|] eqn:E; simpl.
+  - rewrite str_eqb_refl. apply rt_nonempty in E. destruct tgt; [congruence|]. simpl. apply andb_true_r.
+  - rewrite str_eqb_refl. destruct c; [congruence|]. simpl. apply orb_false_r.
+Qed.
+Lemma eff_other t c' x rest b : str_eqb t x = false -> (c' = [] -> nonneg t) -> eff (t :: c') (x :: rest) b = b.
+Proof.
+  intros Ht Hn. unfold eff. destruct c' as [|y c''].
+  - rewrite rt_single. rewrite (Hn eq_refl). simpl. rewrite Ht. simpl. apply orb_false_r.
+  - rewrite rt_cons by discriminate. destruct (removal_target (y :: c'')) as [tgt|]; simpl; rewrite Ht; simpl.
+    + apply andb_true_r.
+    + apply orb_false_r.
+Qed.
+
+Lemma sv_map_strip x C rest : (forall c, In c C -> c <> []) ->
+  forall v, sv (map (cons x) C) (x :: rest) v = sv C rest v.
+Proof.
+  induction C as [|c r IH]; intros H v; [reflexivity|].
+  simpl map. rewrite !sv_cons, eff_strip by (apply H; left; reflexivity).
+  apply IH. intros c' Hc'. apply H. right. exact Hc'.
+Qed.
+Lemma sv_map_single x C : (forall c, In c C -> c <> []) -> forall v, sv (map (cons x) C) [x] v = v.
+Proof.
+  induction C as [|c r IH]; intros H v; [reflexivity|].
+  simpl map. rewrite sv_cons, eff_single by (apply H; left; reflexivity).
+  apply IH. intros c' Hc'. apply H. right. exact Hc'.
+Qed.
+Definition other_head (x : str) (c : path) : Prop :=
+  exists t c', c = t :: c' /\ str_eqb t x = false /\ (c' = [] -> nonneg t).
+Lemma sv_other x rest C : (forall c, In c C -> other_head x c) -> forall v, sv C (x :: rest) v = v.
+Proof.
+  induction C as [|c r IH]; intros H v; [reflexivity|].
+  rewrite sv_cons. destruct (H c (or_introl eq_refl)) as [t [c' [E [Ht Hn]]]]. subst c.
+  rewrite eff_other by assumption. apply IH. intros c0 Hc0. apply H. right. exact Hc0.
+Qed.
+
+(* every path of a forest whose texts are all un-negated is an addition *)
+Lemma allt_paths P f : allt P f -> forall p, In p (paths f) -> Forall P p.
+Proof.
+  intros A. induction A as [|t k f Hp Ak IHk Af IHf]; intros p Hp'; [contradiction|].
+  rewrite paths_cons, in_app_iff, paths_node_eq in Hp'. destruct Hp' as [[E|Hm]|Hf].
+  - subst. constructor; [exact Hp|constructor].
+  - apply in_map_iff in Hm. destruct Hm as [q [E Hq]]. subst. constructor; [exact Hp|]. apply IHk. exact Hq.
+  - apply IHf. exact Hf.
+Qed.
+Lemma nonneg_paths_adds f : allt nonneg f -> forall c, In c (paths f) -> removal_target c = None.
+Proof. intros A c Hc. apply rt_nonneg. eapply allt_paths; eauto. Qed.
